@@ -314,11 +314,19 @@ def gen_combo(rng, cfg, kind):
     else:
         mask, mcalls = gen_mask_calls(rng, d, n, [(lo, hi) for _, lo, hi in arrays], yshape)
     prev = None
-    for tsel, J in mcalls:
+    s_of = {an: sid_ for (an, lo, hi), sid_ in zip(arrays, s_zs)}
+    for k_, (tsel, J) in enumerate(mcalls):
         tgt = ['v', 'y'] if tsel is None else ['i', ['v', 'y'], tsel]
         an, lo, hi = [a_ for a_ in arrays if a_[1] <= J[0] < a_[2]][0]
-        # affine adapt calls of one decision are kept in generation order (legality of later calls depends on it)
-        sid = add({'op': 'adapt', 'tgt': tgt, 'to': zsel2(rng, an, [j - lo for j in J], hi - lo)}, [s_y] + s_zs + ([prev] if prev else []), role='adapt_aff')
+        pre = []
+        if tsel is not None and rng.random() < 0.35:
+            # the slice object is created ahead of time (possibly before other adapt() calls on the same decision)
+            pre = [add({'op': 'expr', 'id': 'ysl%d' % k_, 'e': tgt}, [s_y], role='slice')]
+            tgt = ['v', 'ysl%d' % k_]
+        # affine adapt calls of one decision are kept in generation order (legality of later calls depends on it); a call
+        # needs only the random array it names - the other array may be declared later
+        sid = add({'op': 'adapt', 'tgt': tgt, 'to': zsel2(rng, an, [j - lo for j in J], hi - lo)},
+                  [s_y, s_of[an]] + pre + ([prev] if prev else []), role='adapt_aff')
         prev = sid
         s_ad.append(sid)
 
@@ -346,7 +354,7 @@ def gen_combo(rng, cfg, kind):
         for tsel, J in mq:
             tgt = ['v', 'q'] if tsel is None else ['i', ['v', 'q'], tsel]
             an, lo, hi = [a_ for a_ in arrays if a_[1] <= J[0] < a_[2]][0]
-            prevq = add({'op': 'adapt', 'tgt': tgt, 'to': zsel2(rng, an, [j - lo for j in J], hi - lo)}, [s_q] + s_zs + ([prevq] if prevq else []), role='adapt_aff')
+            prevq = add({'op': 'adapt', 'tgt': tgt, 'to': zsel2(rng, an, [j - lo for j in J], hi - lo)}, [s_q, s_of[an]] + ([prevq] if prevq else []), role='adapt_aff')
             s_adq.append(prevq)
         s_ad = s_ad + s_adq + [s_q, s_g]
         extra = {'dq': dq, 'cq': cq, 'wq': wq, 'maskq': maskq, 'pq': pq.partition(), 'eq': pq.event_of()}
